@@ -13,6 +13,18 @@ CHECKS = {
          "The consensus rule book is an executable TLA+ specification; TLC (a) runs it on all 1,205 Core vectors (must agree with Core, else the check is broken), (b) explores every machine state x instruction x flag configuration within bounds, every CHECKSIG/CHECKMULTISIG stack over a table of real signature/key classes x flag subsets, every spend shape x permitted flag set, conditional sequences to depth 6, and limit scenarios, and each case is executed on pycoin (verdict and final stack); (c) validates step by step the instruction traces pycoin's VM logs for seeded random scripts.",
          "Trusted: TLC/SANY, CPython hashlib; Core's vectors as ground truth for the spec; ECDSA and signature-hash primitives inside the signature oracle are pycoin's (C01/C04). Bounds: scripts of <=3 (thorough 4) instructions over a 90-instruction alphabet plus operand-class products, multisig up to 2 (3) keys; longer scripts only via Core vectors, scenarios and traces.",
          "DESIGN.md section 4 C03, Appendix A"),
+ "C11": ("TLA+ specs of Base58 (schoolbook radix conversion), Base58Check (checksum as uninterpreted term) and Bech32/Bech32m (polymod, regrouping, BIP173/350 rules); TLC lemmas incl. exhaustive syndrome count for <=4-error detection; TLC-enumerated cases replayed on pycoin; recorded sessions validated by TLC trace spec",
+         "TLC proves round-trip/bijection lemmas on bounded alphabets, that Polymod is affine and that all 3,766,036 error patterns of weight <=2 in an 89-symbol window have pairwise distinct syndromes (hence every 1..4-symbol error within one checksum constant is detected); TLC enumerates byte strings, (hrp, version, program) triples and 15 corruption classes with the expected verdicts, each executed on pycoin's b58/bech32m/network parsers; seeded random sessions are validated as traces.",
+         "Trusted: TLC/SANY (64-bit fingerprints for the distinctness count), hashlib SHA-256. The <=4-character guarantee is asserted per checksum constant only: BIP350 itself lists two valid addresses 4 characters apart across the Bech32/Bech32m constants (ASSUME CrossWitness in the spec). Groestl-hashed Base58 is out of reach (library absent).",
+         "DESIGN.md section 4 C11, notes/C11.md"),
+ "C12": ("TLA+ specs ScriptNum (sign-magnitude integers on byte sequences), ScriptPush (push choice, CheckMinimalPush, decoder cursor machine), Disasm (token language); TLC lemmas; TLC-enumerated grids replayed on IntStreamer/ScriptStreamer/ScriptTools/BitcoinVM; recorded sessions validated by TLC trace spec; Core vectors as ground truth",
+         "TLC checks encode/decode/minimality/uniqueness lemmas, shortest-and-only-minimal push, read-back and every-proper-prefix-malformed lemmas, and compile(disassemble(s)) = s with the necessity of the minimal-push hypothesis; it enumerates all byte strings of length <= 2, top-byte classes to length 9, integers to +-70,000 and +-(2^k-1, 2^k, 2^k+1) for k <= 71, all boundary push lengths and raw scripts, and scripts of <= 3 items over the opcode table; every case is executed on pycoin; 90 Core vectors validate the spec first.",
+         "Trusted: TLC/SANY, CPython. Integers beyond the class grids only via seeded traces (96-bit). PUSHDATA4 lengths >= 2^31 not run.",
+         "DESIGN.md section 4 C12, notes/C12.md"),
+ "C19": ("RIPEMD-160, SHA-256, MurmurHash3 and the BIP37 filter computed inside TLC on 16-bit limbs (one TLC step per round); TLC digests/bit positions compared with pycoin in every RIPEMD configuration; Bloom-filter histories enumerated by TLC and replayed; recorded hash/filter sessions validated by TLC trace specs",
+         "TLC itself computes the standard digests (tables derived in TLA+ from the standards, validated against hashlib, the published RIPEMD-160/FIPS/murmur3 vectors and Core's filter vectors) for messages on every padding boundary (thorough: every length 0..260 and 8191..8248), every murmur3 tail length x seed class incl. wider than 32 bits, and Bloom filter histories over sizes 1..36000 / 0..50 hash functions; pycoin must produce identical bytes in the native, PYCOIN_USE_PYTHON_RIPEMD160 and hashlib-without-ripemd configurations; add_item/add_hash160/add_address/add_spendable compared bit for bit after every call.",
+         "Trusted: TLC/SANY; SHA-256 and native RIPEMD-160 inside pycoin are hashlib (the spec has its own SHA-256 and was compared with hashlib). Crypto.Hash path absent. Messages >= 2^21 bytes out of reach.",
+         "DESIGN.md section 4 C19, notes/C19.md"),
 }
 
 NOT_APPLICABLE = {
